@@ -3,22 +3,25 @@
 (* Each state is one case; the invariant prints input bytes and the value the              *)
 (* specification assigns, and checks the composition law on the spec itself.               *)
 EXTENDS Naturals, Sequences, SequencesExt, TLC, Json, W, Crc32, XxHash64
-CONSTANTS MaxLen, Patterns, Kind   \* Kind \in {"xxh", "crc"}
+CONSTANTS MaxLen, Patterns, Kind,   \* Kind \in {"xxh", "crc"}
+          BigLens                    \* a few large lengths (crc only): implementations switch code paths by length
 VARIABLE c
 Seeds == << Zero(8), FromNat(1, 8), <<0,0,0,0,1,0,0,0>>, Ones(8), <<21, 205, 91, 7, 0, 0, 0, 0>> >>
 
 Data(n, k) == [i \in 1..n |-> IF k = 0 THEN 0 ELSE IF k = 1 THEN 255
-                              ELSE ((i * 37) + (n * 11) + (k * 101) + ((i * i) % 7)) % 256]
+                              ELSE ((i * 37) + (n * 11) + (k * 101) + (((i % 7) * (i % 7)) % 7)) % 256]    \* (i*i would overflow for large i)
 
 XxhCases == [n : 0..MaxLen, k : Patterns, s : 1..Len(Seeds)]
 CrcCases == [n : 0..MaxLen, k : Patterns, s : 0..MaxLen]     \* s = split point (<= n)
 
+BigCases == {x \in {[n |-> n, k |-> 2, s |-> sp] : n \in BigLens, sp \in {0, 1, 4097}} : x.s <= x.n} \cup {[n |-> n, k |-> 2, s |-> n - 1] : n \in BigLens}
 \* two levels so that TLC's workers share the evaluation: first pick the length, then the rest
 Init == c = [none |-> TRUE]
 Next == \/ /\ "none" \in DOMAIN c
-           /\ c' \in [grp : 0..MaxLen]
+           /\ c' \in [grp : 0..MaxLen] \cup (IF Kind = "crc" THEN [grp : BigLens] ELSE {})
         \/ /\ "grp" \in DOMAIN c
            /\ c' \in IF Kind = "xxh" THEN {x \in XxhCases : x.n = c.grp}
+                                     ELSE IF c.grp \in BigLens THEN {x \in BigCases : x.n = c.grp}
                                      ELSE {x \in CrcCases : x.n = c.grp /\ x.s <= x.n}
 
 EmitXxh == LET d == Data(c.n, c.k) IN
